@@ -403,7 +403,7 @@ Ltac tsplit Hn := apply nth_error_set_nth in Hn as [(<- & Hn & _)|(? & Hn)].
 (* a thread moves between two program counters of the same kind *)
 Lemma thr_simple counts s i it pc0 pc1 :
   Inv counts s -> nth_error (threads s) i = Some (it, pc0) ->
-  pc0 <> TNotCreated -> pc1 <> TNotCreated -> pc0 <> TAfter -> pc1 <> RNotify ->
+  pc0 <> TNotCreated -> pc1 <> TNotCreated -> pc0 <> TAfter -> pc0 <> RNotify ->
   active pc1 = active pc0 -> past_run pc1 = past_run pc0 -> is_retired pc1 = is_retired pc0 ->
   holds_c pc1 = false ->
   Inv counts (set_thread s i (it, pc1)).
@@ -420,7 +420,127 @@ Proof.
   - intros i0 it0 pc Hn. tsplit Hn; [|eauto]. injection Hn as -> ->. rewrite Ert. eauto.
   - intros Eo. destruct (V_blocked0 Eo) as [Hc|(i0 & it0 & Hn)]; [auto|]. right.
     exists i0, it0. rewrite nth_error_set_nth_neq; [exact Hn|]. intros ->. rewrite Hi in Hn. injection Hn as _ ->.
-    (* the moving thread was at RNotify: excluded, its move is not a simple one *)
-    admit.
+    congruence.
   - intros Ho. destruct (V_joined0 Ho) as [Hz Hall]. exfalso. apply Ha. eapply Hall; eauto.
-Abort.
+Qed.
+
+Lemma step_thread_inv counts i s s' evs : Inv counts s -> step_thread i s = Some (s', evs) -> Inv counts s'.
+Proof.
+  intros HI H. unfold step_thread in H. pose proof HI as I0.
+  destruct (nth_error (threads s) i) as [[it pc]|] eqn:Ei; [|discriminate].
+  assert (Hil : i < length (threads s)) by (eapply nth_error_lt; eauto).
+  pose proof (threads_nodup counts s I0) as Hnd.
+  assert (Hother : forall i0 it0 pc0, i <> i0 -> nth_error (threads s) i0 = Some (it0, pc0) -> it0 <> it).
+  { intros i0 it0 pc0 Hne Hn ->. apply Hne. eapply nodup_fst_index; eauto. }
+  destruct pc; try discriminate.
+  - (* TLock *)
+    destruct (mem it (oplocked s)); [discriminate|]. injection H as <- <-.
+    eapply thr_simple; eauto; try discriminate; reflexivity.
+  - (* TUnlock *)
+    injection H as <- <-. eapply thr_simple; eauto; try discriminate; reflexivity.
+  - (* TRun: the receiver is completed *)
+    injection H as <- <-. destruct HI.
+    assert (Hfresh : ~ In it (map fst (completed s))).
+    { intros Hin. apply (V_completed0 _ _ _ Ei) in Hin. discriminate. }
+    constructor; nt_simpl; auto.
+    + erewrite map_fst_set_nth; eauto.
+    + intros i0 it0 pc Hn Hhc. tsplit Hn; [injection Hn as -> ->; discriminate|eauto].
+    + pose proof (nactive_set_nth _ _ _ _ RLock Ei) as Hc. cbn in Hc. lia.
+    + intros x n pc i0 j tp Hx Ht. tsplit Ht; [|eauto].
+      injection Ht as <- ->. pose proof (V_created0 _ _ _ _ _ _ Hx Ei) as Hc. split; [discriminate|].
+      intros Hle. apply Hc in Hle. discriminate.
+    + intros i0 it0 pc Hn. rewrite map_app, in_app_iff. cbn. tsplit Hn.
+      * injection Hn as -> ->. cbn. tauto.
+      * rewrite (V_completed0 _ _ _ Hn). split; [intros [Hp|[E|[]]]; [exact Hp|]|tauto].
+        exfalso. eapply Hother; eauto.
+    + rewrite map_app. cbn. apply NoDup_app_singleton; auto.
+    + intros it0 b Hin. apply in_app_iff in Hin as [Hin|[E|[]]]; [eauto|]. now injection E as <- <-.
+    + intros i0 it0 pc Hn. tsplit Hn; [|eauto]. injection Hn as -> ->. rewrite (V_retired0 _ _ _ Ei). cbn. tauto.
+    + intros Eo. destruct (V_blocked0 Eo) as [Hc|(i0 & it0 & Hn)]; [auto|]. right.
+      exists i0, it0. rewrite nth_error_set_nth_neq; [exact Hn|]. intros ->. rewrite Ei in Hn. discriminate.
+    + intros Ho. destruct (V_joined0 Ho) as [Hz Hall]. specialize (Hall _ _ _ Ei). discriminate.
+  - (* RLock: enters retire_thread's critical section and swaps itself into threadToJoin_ *)
+    destruct (cmtx s) eqn:Em; [discriminate|]. injection H as <- <-. destruct HI.
+    assert (Hfresh : ~ In it (retired s)).
+    { intros Hin. apply (V_retired0 _ _ _ Ei) in Hin. discriminate. }
+    constructor; nt_simpl; auto.
+    + erewrite map_fst_set_nth; eauto.
+    + intros Ho. specialize (V_own0 Ho). congruence.
+    + intros i0 it0 pc Hn Hhc. tsplit Hn; [reflexivity|]. specialize (V_thr0 _ _ _ Hn Hhc). congruence.
+    + pose proof (nactive_set_nth _ _ _ _ RSub Ei) as Hc. cbn in Hc. lia.
+    + intros x n pc i0 j tp Hx Ht. tsplit Ht; [|eauto].
+      injection Ht as <- ->. pose proof (V_created0 _ _ _ _ _ _ Hx Ei) as Hc. split; [discriminate|].
+      intros Hle. apply Hc in Hle. discriminate.
+    + intros i0 it0 pc Hn. tsplit Hn; [|eauto]. injection Hn as -> ->. rewrite (V_completed0 _ _ _ Ei). cbn. tauto.
+    + intros i0 it0 pc Hn. rewrite in_app_iff. cbn. tsplit Hn.
+      * injection Hn as -> ->. cbn. tauto.
+      * rewrite (V_retired0 _ _ _ Hn). split; [intros [Hp|[E|[]]]; [exact Hp|]|tauto].
+        exfalso. eapply Hother; eauto.
+    + apply NoDup_app_singleton; auto.
+    + intros Eo. destruct (V_blocked0 Eo) as [Hc|(i0 & it0 & Hn)]; [auto|]. right.
+      exists i0, it0. rewrite nth_error_set_nth_neq; [exact Hn|]. intros ->. rewrite Ei in Hn. discriminate.
+    + intros Ho. destruct (V_joined0 Ho) as [Hz Hall]. specialize (Hall _ _ _ Ei). discriminate.
+  - (* RSub: the decrement *)
+    injection H as <- <-. destruct HI.
+    pose proof (V_thr0 _ _ _ Ei eq_refl) as Hm.
+    pose proof (nactive_set_nth _ _ _ _ (if Nat.eqb (count s) 1 then RNotify else RUnlock) Ei) as Hc.
+    assert (Hinact : active (if Nat.eqb (count s) 1 then RNotify else RUnlock) = false) by (destruct (Nat.eqb (count s) 1); reflexivity).
+    rewrite Hinact in Hc. cbn in Hc.
+    assert (Hownf : owner_holds (owner s) = false).
+    { destruct (owner_holds (owner s)) eqn:E; [|reflexivity]. specialize (V_own0 eq_refl). rewrite V_own0 in Hm. injection Hm as Hm. lia. }
+    constructor; nt_simpl; auto.
+    + erewrite map_fst_set_nth; eauto.
+    + intros i0 it0 pc Hn Hhc. tsplit Hn; [exact Hm|eauto].
+    + lia.
+    + intros x n pc i0 j tp Hx Ht. tsplit Ht; [|eauto].
+      injection Ht as <- ->. pose proof (V_created0 _ _ _ _ _ _ Hx Ei) as Hcr. split.
+      * intros E. destruct (Nat.eqb (count s) 1); discriminate.
+      * intros Hle. apply Hcr in Hle. discriminate.
+    + intros i0 it0 pc Hn. tsplit Hn; [|eauto]. injection Hn as -> ->. rewrite (V_completed0 _ _ _ Ei).
+      destruct (Nat.eqb (count s) 1); cbn; tauto.
+    + intros i0 it0 pc Hn. tsplit Hn; [|eauto]. injection Hn as -> ->. rewrite (V_retired0 _ _ _ Ei).
+      destruct (Nat.eqb (count s) 1); cbn; tauto.
+    + intros Eo. rewrite Eo in Hownf. discriminate.
+    + intros Eo. destruct (Nat.eqb_spec (count s) 1) as [E1|E1].
+      * right. exists i, it. now rewrite nth_error_set_nth_eq.
+      * left. lia.
+    + intros Ho. destruct (V_joined0 Ho) as [Hz Hall]. specialize (Hall _ _ _ Ei). discriminate.
+  - (* RNotify *)
+    injection H as <- <-. destruct HI.
+    pose proof (V_thr0 _ _ _ Ei eq_refl) as Hm.
+    assert (Ew : is_osub (wake (owner s)) = is_osub (owner s)) by (destruct (owner s) as [| | | |[]| | |]; reflexivity).
+    assert (Eh : owner_holds (wake (owner s)) = owner_holds (owner s)) by (destruct (owner s) as [| | | |[]| | |]; reflexivity).
+    constructor; nt_simpl; rewrite ?Ew, ?Eh; auto.
+    + erewrite map_fst_set_nth; eauto.
+    + intros i0 it0 pc Hn Hhc. tsplit Hn; [exact Hm|eauto].
+    + pose proof (nactive_set_nth _ _ _ _ RUnlock Ei) as Hc. cbn in Hc. lia.
+    + intros x n pc i0 j tp Hx Ht. tsplit Ht; [|eauto].
+      injection Ht as <- ->. pose proof (V_created0 _ _ _ _ _ _ Hx Ei) as Hcr. split; [discriminate|].
+      intros Hle. apply Hcr in Hle. discriminate.
+    + intros i0 it0 pc Hn. tsplit Hn; [|eauto]. injection Hn as -> ->. rewrite (V_completed0 _ _ _ Ei). cbn. tauto.
+    + intros i0 it0 pc Hn. tsplit Hn; [|eauto]. injection Hn as -> ->. rewrite (V_retired0 _ _ _ Ei). cbn. tauto.
+    + intros Eo. apply V_wait0. destruct (owner s) as [| | | |[]| | |]; cbn in Eo; congruence.
+    + intros Eo. exfalso. destruct (owner s) as [| | | |[]| | |]; cbn in Eo; discriminate.
+    + intros Ho. assert (Ho' : owner s = OJoin \/ owner s = OUnlock \/ owner s = ODone).
+      { destruct (owner s) as [| | | |[]| | |]; cbn in Ho; intuition discriminate. }
+      destruct (V_joined0 Ho') as [Hz Hall]. specialize (Hall _ _ _ Ei). discriminate.
+  - (* RUnlock *)
+    injection H as <- <-. destruct HI.
+    pose proof (V_thr0 _ _ _ Ei eq_refl) as Hm.
+    assert (Hownf : owner_holds (owner s) = false).
+    { destruct (owner_holds (owner s)) eqn:E; [|reflexivity]. specialize (V_own0 eq_refl). rewrite V_own0 in Hm. injection Hm as Hm. lia. }
+    constructor; nt_simpl; auto.
+    + erewrite map_fst_set_nth; eauto.
+    + intros Ho. rewrite Ho in Hownf. discriminate.
+    + intros i0 it0 pc Hn Hhc. tsplit Hn; [injection Hn as -> ->; discriminate|].
+      specialize (V_thr0 _ _ _ Hn Hhc). rewrite Hm in V_thr0. injection V_thr0 as E. lia.
+    + pose proof (nactive_set_nth _ _ _ _ TAfter Ei) as Hc. cbn in Hc. lia.
+    + intros x n pc i0 j tp Hx Ht. tsplit Ht; [|eauto].
+      injection Ht as <- ->. pose proof (V_created0 _ _ _ _ _ _ Hx Ei) as Hcr. split; [discriminate|].
+      intros Hle. apply Hcr in Hle. discriminate.
+    + intros i0 it0 pc Hn. tsplit Hn; [|eauto]. injection Hn as -> ->. rewrite (V_completed0 _ _ _ Ei). cbn. tauto.
+    + intros i0 it0 pc Hn. tsplit Hn; [|eauto]. injection Hn as -> ->. rewrite (V_retired0 _ _ _ Ei). cbn. tauto.
+    + intros Eo. destruct (V_blocked0 Eo) as [Hc|(i0 & it0 & Hn)]; [auto|]. right.
+      exists i0, it0. rewrite nth_error_set_nth_neq; [exact Hn|]. intros ->. rewrite Ei in Hn. discriminate.
+    + intros Ho. destruct (V_joined0 Ho) as [Hz Hall]. specialize (Hall _ _ _ Ei). discriminate.
+Qed.
